@@ -179,6 +179,16 @@ pub fn run(ctx: &Ctx) -> Report {
         if !ct_vals.is_empty() {
             plan.signed.push("content-type".into());
         }
+        // every third case: the entity headers that describe the body as sent (accurate length, digest, encoding) are
+        // present and signed -- folding moves parameters and empties the payload hash, it does not touch a header
+        if i % 3 == 1 {
+            plan.headers.push(("Content-Length".into(), body.len().to_string().into_bytes()));
+            plan.headers.push(("Content-MD5".into(), b"1B2M2Y8AsgTpgAmY7PhCfg==".to_vec()));
+            plan.headers.push(("X-Amz-Content-Sha256".into(), refmodel::hex_lower(&refmodel::hmac::sha256(&body)).into_bytes()));
+            plan.signed.push("content-length".into());
+            plan.signed.push("content-md5".into());
+            plan.signed.push("x-amz-content-sha256".into());
+        }
         // V: verbatim (URL query only, payload hash of the body)
         let v_built = build(&plan);
         // F: folded (body parameters as if in the URL, payload hash of the empty string)
@@ -668,7 +678,7 @@ pub fn run(ctx: &Ctx) -> Report {
     Report {
         stats: st,
         rule: format!(
-            "(1) every URL parameter list x every body parameter list, each of 0..2 (thorough: 0..3) pairs over names {{a,b}} x values {{1,2,empty}} (all same-name-in-both patterns) x {} content-type spellings (absent, exact, charset utf-8/UTF-8/utf8, extra parameter, valueless charset, iso-8859-1, bogus, case variant, longer type, text/plain, json, two headers in both orders, padded) x {{fold off, fold on, fold on + S3}} x carrier; each case signed two ways — F (body parameters as if appended to the URL, payload = empty) and V (URL only, payload = body) — and both judged by the reference verifier; returned body / URI compared with the statement; F and V never both accepted unless identical; (2) 133 undecodable bodies and 3 unknown charset labels x 3 bodies => InvalidBodyEncoding/400 with the provider untouched, each followed on the same thread by a correctly signed folded request that must be accepted; (2b) all-ASCII bodies that the declared charset cannot decode (any non-empty body under iso-2022-kr / iso-2022-cn / iso-2022-cn-ext / csiso2022kr, an escape character that starts no escape sequence under iso-2022-jp) are refused as InvalidBodyEncoding; (3) where folding does not apply — under {{default, S3, fold, S3+fold}}, with no / a signed / an unsigned X-Amz-Content-Sha256 header carrying the digest of the signed body, or UNSIGNED-PAYLOAD — every single-bit flip of every body byte (4 bodies incl. all 256 byte values), an append, a truncation, a replacement and an emptied body are refused, and the unchanged request (also the folded one, whose declared digest is not that of an empty body) is accepted; (5) 27 form bodies of 65 kB .. 200 kB whose parameters are small (percent-escaped unreserved characters, runs of '&', 4000 tiny parameters) are folded and accepted on both carriers; (6) presigned (query-string) folded requests in which one of X-Amz-Credential / -Date / -SignedHeaders / -Security-Token / -Signature / -Algorithm has a second, different value in the body — good in the URL and bad in the body, or the reverse — x 0..10 other body parameters x 0 / 2 / 6 other URL parameters x token: the URL's value counts (body parameters come after the URL's). states = distinct reference canonical requests",
+            "(1) [every third case with accurate Content-Length / Content-MD5 / X-Amz-Content-Sha256 headers present and signed] every URL parameter list x every body parameter list, each of 0..2 (thorough: 0..3) pairs over names {{a,b}} x values {{1,2,empty}} (all same-name-in-both patterns) x {} content-type spellings (absent, exact, charset utf-8/UTF-8/utf8, extra parameter, valueless charset, iso-8859-1, bogus, case variant, longer type, text/plain, json, two headers in both orders, padded) x {{fold off, fold on, fold on + S3}} x carrier; each case signed two ways — F (body parameters as if appended to the URL, payload = empty) and V (URL only, payload = body) — and both judged by the reference verifier; returned body / URI compared with the statement; F and V never both accepted unless identical; (2) 133 undecodable bodies and 3 unknown charset labels x 3 bodies => InvalidBodyEncoding/400 with the provider untouched, each followed on the same thread by a correctly signed folded request that must be accepted; (2b) all-ASCII bodies that the declared charset cannot decode (any non-empty body under iso-2022-kr / iso-2022-cn / iso-2022-cn-ext / csiso2022kr, an escape character that starts no escape sequence under iso-2022-jp) are refused as InvalidBodyEncoding; (3) where folding does not apply — under {{default, S3, fold, S3+fold}}, with no / a signed / an unsigned X-Amz-Content-Sha256 header carrying the digest of the signed body, or UNSIGNED-PAYLOAD — every single-bit flip of every body byte (4 bodies incl. all 256 byte values), an append, a truncation, a replacement and an emptied body are refused, and the unchanged request (also the folded one, whose declared digest is not that of an empty body) is accepted; (5) 27 form bodies of 65 kB .. 200 kB whose parameters are small (percent-escaped unreserved characters, runs of '&', 4000 tiny parameters) are folded and accepted on both carriers; (6) presigned (query-string) folded requests in which one of X-Amz-Credential / -Date / -SignedHeaders / -Security-Token / -Signature / -Algorithm has a second, different value in the body — good in the URL and bad in the body, or the reverse — x 0..10 other body parameters x 0 / 2 / 6 other URL parameters x token: the URL's value counts (body parameters come after the URL's). states = distinct reference canonical requests",
             n_ct
         ),
         bounds: json!({"url_lists": n_lists, "body_lists": n_lists, "content_types": n_ct, "bit_flip_cases": n3}),
